@@ -12,7 +12,7 @@ from vlib.oracles import routing as R
 from vlib.oracles import scheduling as S
 from vlib.sweep import sig_of
 
-ROUTING = {"tsp", "atsp", "cvrp", "cvrptw", "sdvrp", "svrp", "op", "pctsp", "spctsp", "pdp", "mtsp", "mtvrp"}
+ROUTING = {"tsp", "atsp", "cvrp", "cvrptw", "sdvrp", "svrp", "op", "pctsp", "spctsp", "pdp", "mtsp", "mtvrp", "mdcpdp"}
 MAX_NODES = 250000
 
 
@@ -58,7 +58,7 @@ def routing(ctx, case, cfg, family, seed, name):
     ctx.nontrivial_case(dict(i=inst, c=cfg))
     reach = {}
     for acts, r in leaves:
-        c = explore.canon(name, acts)
+        c = explore.canon(name, acts, inst)
         if c not in reach or r > reach[c][1]:
             reach[c] = (acts, r)
     best_reach = max(r for _, r in leaves)
